@@ -29,6 +29,7 @@ func VerifC18NewBatchHistogram(buckets []float64, hasSum bool) *VerifC18Hist {
 
 func (v *VerifC18Hist) Update(his *metrics.Float64Histogram, sum float64) { v.h.update(his, sum) }
 func (v *VerifC18Hist) Write(out *dto.Metric) error                       { return v.h.Write(out) }
+func (v *VerifC18Hist) Collector() Collector                              { return v.h }
 func (v *VerifC18Hist) Buckets() []float64                                { return append([]float64{}, v.h.buckets...) }
 
 // VerifC18MatchRules runs matchRuntimeMetricsRules and returns the exposed runtime/metrics names in order.
